@@ -41,12 +41,16 @@ REPL_NAMES = ["null", "true", "-1", "0", "2^31", "real", "string", "name", "[]",
               "missing-ref", "pagetree-ref", "referrer-ref (cycle of length >= 2)"]
 # (indices are part of pinned replay files: only ever append)
 TRAILER_REPL = list(REPL) + ["SELFPOS", 7]
-REPL += [10 ** 30, -10 ** 30, W.Real("1" + "0" * 60 + ".0"), b"", [W.R(9999)], [None], "CHAIN1", "CHAIN2"]
+REPL += [10 ** 30, -10 ** 30, W.Real("1" + "0" * 60 + ".0"), b"", [W.R(9999)], [None], "CHAIN1", "CHAIN2", 2 ** 63 - 1,
+         2 ** 63 - 300, "FANOUT"]
 REPL_NAMES += ["10^30", "-10^30", "real 1e60", "empty string", "[missing-ref]", "[null]",
                "ref to a new object whose value is a reference to itself",
-               "ref to a new object leading into a cycle of two further objects"]
+               "ref to a new object leading into a cycle of two further objects", "2^63-1", "2^63-300",
+               "ref to an array of four references to an array of four references ... 14 levels deep"]
 # objects added to the file for the CHAIN replacements: a reference chain that *enters* a cycle
-CHAIN_OBJS = {"CHAIN1": {9000: W.R(9000)}, "CHAIN2": {9000: W.R(9001), 9001: W.R(9002), 9002: W.R(9001)}}
+CHAIN_OBJS = {"CHAIN1": {9000: W.R(9000)}, "CHAIN2": {9000: W.R(9001), 9001: W.R(9002), 9002: W.R(9001)},
+              # no cycle, but 4**14 paths: every object must be resolved once, not once per path
+              "FANOUT": dict([(9000 + i, [W.R(9001 + i)] * 4) for i in range(14)] + [(9014, [1, 2, 3, 4])])}
 TRAILER_REPL += REPL[16:]
 TRAILER_REPL_NAMES = REPL_NAMES[:16] + ["own startxref offset", "7"] + REPL_NAMES[16:]
 LZW_CODE_VALUES = [0, 255, 256, 257, 258, 259, 300, 511, 512, 4095]
@@ -234,6 +238,13 @@ def fault_space(s):
             for key in ("N", "First"):
                 for val in (0, 1, 1000, -1):
                     out.append({"t": "objstm", "group": grp, "key": key, "val": val})
+    if s["form"] == "table":
+        # fields of the classic cross-reference table entries (generation numbers matter for decryption keys)
+        for n in sorted(s["objs"]):
+            for val in (b"-0001", b"99999", b"00001", b"65535"):
+                out.append({"t": "xrefentry", "obj": n, "field": "gen", "val": val.decode()})
+            for val in (b"-000000001", b"9999999999", b"0000000000"):
+                out.append({"t": "xrefentry", "obj": n, "field": "off", "val": val.decode()})
     for key in TRAILER_KEYS:
         for ri in range(len(TRAILER_REPL)):
             out.append({"t": "trailer", "key": key, "r": ri})
@@ -319,6 +330,16 @@ def apply_fault(s, f):
             d[b"Length"] = len(new)
         o2[f["obj"]] = ("S", d, new)
         return SD.write(s, o2)
+    if f["t"] == "xrefentry":
+        data = bytearray(SD.write(s))
+        x = data.rindex(b"xref\n0 ")
+        first = data.index(b"\n", x + 5) + 1
+        e = first + 20 * f["obj"]
+        if f["field"] == "gen":
+            data[e + 11:e + 16] = f["val"].encode()
+        else:
+            data[e:e + 10] = f["val"].encode()
+        return bytes(data)
     if f["t"] == "objstm":
         dmg = {"group": f["group"]}
         if "cut" in f:
@@ -508,8 +529,8 @@ def run_case(case):
         else:
             viol.append((bucket(exc), "%s raised %s: %s" % (name, type(exc).__name__, str(exc)[:200])))
     f = case["fault"]
-    if f["t"] in ("truncate", "flipbyte", "raw", "trailer", "objstm"):
-        nt = bool(fetched) or f["t"] in ("trailer", "objstm")
+    if f["t"] in ("truncate", "flipbyte", "raw", "trailer", "objstm", "xrefentry"):
+        nt = bool(fetched) or f["t"] in ("trailer", "objstm", "xrefentry")
     else:
         nt = f["obj"] in fetched
     fp = None
@@ -532,6 +553,8 @@ def describe(case):
         return "seed %s object %d key %s removed" % (case["seed"], f["obj"], _fmt_path(f["path"]))
     if f["t"] == "payload":
         return "seed %s stream %d payload %s %s" % (case["seed"], f["obj"], f["how"], f.get("i", ""))
+    if f["t"] == "xrefentry":
+        return "seed %s xref table entry of object %d: %s <- %s" % (case["seed"], f["obj"], f["field"], f["val"])
     if f["t"] == "objstm":
         return "seed %s object stream #%d %s" % (case["seed"], f["group"], ("payload cut to %d bytes" % f["cut"]) if "cut" in f else "/%s <- %d" % (f["key"], f["val"]))
     if f["t"] == "trailer":
@@ -658,7 +681,8 @@ def run_shard(spec, ctx):
             if f["t"] == "byteset" and c["seed"] == "cid":
                 return True  # the TrueType program: small, and every table of it is offsets / counts / keys
             return f["t"] in ("payload", "lzwcode", "whole", "cmaprange", "trailer", "inlinekey", "objstm") or (
-                f["t"] == "replace" and REPL[f["r"]] in ("SELF", "REFERRER", "CHAIN1", "CHAIN2") or
+                f["t"] == "xrefentry" and str(c["seed"]).startswith("crypt")) or (
+                f["t"] == "replace" and REPL[f["r"]] in ("SELF", "REFERRER", "CHAIN1", "CHAIN2", "FANOUT") or
                                                           (f["t"] == "replace" and f["r"] == 14))
         fixed = [i for i, c in enumerate(cases) if always(c)]
         rest = [i for i, c in enumerate(cases) if not always(c)]
